@@ -8,6 +8,7 @@
 package qbftsim
 
 import (
+	"os"
 	"context"
 	"fmt"
 	"hash/fnv"
@@ -109,6 +110,11 @@ type sim struct {
 	rules      []dropRule
 	votes      map[voteKey]int64
 	splitLocks bool
+	// scenario family "ping-pong locks" (see body): rounds 1..ppK each leave exactly one honest member
+	// prepared (and committed), and that member's next ROUND-CHANGE does not reach the next leader
+	ppK int64
+	ppX []int // ppX[r] = the only member that receives the PREPAREs of round r (1-based)
+	ppZ []bool // the members that receive the COMMITs of the scripted rounds
 }
 
 type voteKey struct {
@@ -192,7 +198,22 @@ func body(c *kernel.Ctx) {
 		sameInput = false
 		compareOn = false
 	}
-	if s.mode == modeByz && !splitLocks {
+	// Scenario family "ping-pong locks": in each of the rounds 1..K only ONE honest member (seeded per round)
+	// receives the PREPAREs, so it alone prepares and commits; its ROUND-CHANGE for the next round is lost on
+	// the way to the next leader, who therefore may justify another value. Prepared values then alternate
+	// between rounds while lone COMMITs of several rounds and values are in everybody's buffers; a Byzantine
+	// member votes (PREPARE and COMMIT) for every proposal it sees and leads round K with a proposal justified
+	// by the ROUND-CHANGEs that hide the newest lock. Every rule that counts votes "of this round and value"
+	// is load-bearing here.
+	pingPong := s.mode == modeByz && !splitLocks && s.n <= 5 && (verifrt.Intn("cfg", 4) == 3 || os.Getenv("VERIF_QBFT_PINGPONG") != "") // env: development aid
+	if pingPong {
+		nb = 1
+		s.ppK = int64(3 + verifrt.Intn("cfg", 3))
+		s.byz[s.leader(s.ppK)] = true
+		sameInput = false
+		compareOn = false
+	}
+	if s.mode == modeByz && !splitLocks && !pingPong {
 		nb = 1 + verifrt.Intn("cfg", s.f)
 		for i := 0; i < nb; i++ {
 			p := verifrt.Intn("cfg", s.n)
@@ -255,6 +276,57 @@ func body(c *kernel.Ctx) {
 		s.stopOnDecide = true
 		s.splitLocks = true
 		verifrt.Probe("scenario:split-locks")
+	} else if pingPong {
+		var hon []int
+		for i := 0; i < s.n; i++ {
+			if !s.byz[i] {
+				hon = append(hon, i)
+			}
+		}
+		s.ppX = make([]int, s.ppK+1)
+		// the COMMITs of the scripted rounds reach only the members of Z (one or two honest members)
+		s.ppZ = make([]bool, s.n)
+		notZ := make([]bool, s.n)
+		for k := 1 + verifrt.Intn("cfg", 2); k > 0; k-- {
+			s.ppZ[hon[verifrt.Intn("cfg", len(hon))]] = true
+		}
+		for i := range notZ {
+			notZ[i] = !s.ppZ[i]
+		}
+		for r := int64(1); r <= s.ppK; r++ {
+			// the lone preparer of round r: mostly a member that is not the next leader (the next leader must not
+			// know the newest lock, or it simply re-proposes it) and did not prepare in the previous round (so
+			// that locks on one value are spread over several members); a seeded quarter picks freely
+			var cands []int
+			for _, h := range hon {
+				if int64(h) != s.leader(r+1) && (r == 1 || h != s.ppX[r-1]) {
+					cands = append(cands, h)
+				}
+			}
+			if len(cands) == 0 || verifrt.Intn("cfg", 4) == 3 {
+				cands = hon
+			}
+			x := cands[verifrt.Intn("cfg", len(cands))]
+			s.ppX[r] = x
+			allc := make([]bool, s.n)
+			for i := range allc {
+				allc[i] = true
+			}
+			s.rules = append(s.rules, dropRule{typ: qbft.MsgCommit, round: r, from: allc, to: notZ})
+			all, notX, onlyX, nextLeader := make([]bool, s.n), make([]bool, s.n), make([]bool, s.n), make([]bool, s.n)
+			for i := range all {
+				all[i], notX[i] = true, i != x
+			}
+			onlyX[x] = true
+			nextLeader[s.leader(r+1)] = true
+			s.rules = append(s.rules,
+				dropRule{typ: qbft.MsgPrepare, round: r, from: all, to: notX},
+				dropRule{typ: qbft.MsgRoundChange, round: r + 1, from: onlyX, to: nextLeader})
+		}
+		s.dropPct, s.longPct, s.part.side = 0, 0, nil
+		s.maxLat = time.Duration(1+verifrt.Intn("cfg", 150)) * time.Millisecond
+		s.stopOnDecide = verifrt.Intn("cfg", 2) == 1
+		verifrt.Probe("scenario:ping-pong-locks")
 	} else if s.mode != modeTimely && verifrt.Intn("cfg", 2) == 1 {
 		for k := 1 + verifrt.Intn("cfg", 4); k > 0; k-- {
 			r := dropRule{typ: qbft.MsgType(1 + verifrt.Intn("cfg", 4)), round: int64(1 + verifrt.Intn("cfg", 3)), from: make([]bool, s.n), to: make([]bool, s.n)}
@@ -356,10 +428,13 @@ func body(c *kernel.Ctx) {
 		if sameInput {
 			in = alphabet[0]
 		}
+		if s.ppK > 0 {
+			in = alphabet[p%len(alphabet)] // ping-pong: members hold different values (as far as the alphabet allows), all available at once
+		}
 		s.inputs[p] = in
 		inputDelay := time.Duration(0)
 		noInput := false
-		if s.mode != modeTimely {
+		if s.mode != modeTimely && s.ppK == 0 {
 			switch verifrt.Intn("w", 6) {
 			case 4:
 				inputDelay = time.Duration(verifrt.Intn("w", 3000)) * time.Millisecond
@@ -739,6 +814,26 @@ func (s *sim) finalChecks() {
 	c := s.c
 	s.mu.Lock()
 	defer s.mu.Unlock()
+	if s.ppK > 0 {
+		// reach probes of the ping-pong scenario: how many distinct values honest members committed to in
+		// the scripted rounds, and in how many of those rounds exactly one honest member committed
+		vals, lone := map[int64]bool{}, 0
+		for r := int64(1); r <= s.ppK; r++ {
+			n := 0
+			for _, m := range s.sent {
+				if m.typ == qbft.MsgCommit && m.round == r {
+					vals[m.val] = true
+					n++
+				}
+			}
+			if n == 1 {
+				lone++
+			}
+		}
+		verifrt.Probe(fmt.Sprintf("ping-pong:committed-values=%d", len(vals)))
+		verifrt.Probe(fmt.Sprintf("ping-pong:lone-commit-rounds=%d", lone))
+		verifrt.Probe(fmt.Sprintf("ping-pong:decided-members=%d", len(s.decided)))
+	}
 	if s.mode != modeTimely {
 		return
 	}
@@ -895,6 +990,78 @@ func (s *sim) qrc(r int64, onlyNull, withPrepares bool) []M {
 	return strip(out)
 }
 
+// pingPongAdversary is the Byzantine member of the "ping-pong locks" scenario: it votes (PREPARE, COMMIT)
+// for every proposal it observes, sends null ROUND-CHANGEs for every next round and, when it leads a round,
+// proposes the value justified by the honest ROUND-CHANGEs it has seen EXCEPT the one of the member that
+// prepared in the previous round (plus its own null one).
+func (s *sim) pingPongAdversary(alphabet []int64, b int64, honest []int) {
+	voted, rcSent := map[int64]bool{}, map[int64]bool{}
+	proposedR := map[int64]bool{}
+	own := pick("a", alphabet)
+	for k := 0; k < 4000 && s.ctx.Err() == nil; k++ {
+		verifrt.Sleep(time.Duration(20+verifrt.Intn("a", 60)) * time.Millisecond)
+		maxR := s.maxRound()
+		for r := int64(1); r <= maxR+1; r++ {
+			if !voted[r] {
+				if pps := s.observed(func(m msg) bool { return m.typ == qbft.MsgPrePrepare && m.round == r }); len(pps) > 0 {
+					voted[r] = true
+					for _, to := range honest {
+						s.advSend(to, s.forged(qbft.MsgPrepare, b, r, pps[0].val, 0, 0, nil))
+						if s.ppZ[to] || r > s.ppK {
+							s.advSend(to, s.forged(qbft.MsgCommit, b, r, pps[0].val, 0, 0, nil))
+						}
+					}
+				}
+			}
+			if !rcSent[r] && r > 1 {
+				// a null ROUND-CHANGE for every round anybody has reached (so that the honest members that are
+				// still running can always form a ROUND-CHANGE quorum together with it)
+				rcSent[r] = true
+				for _, to := range honest {
+					s.advSend(to, s.forged(qbft.MsgRoundChange, b, r, 0, 0, 0, nil))
+				}
+			}
+			if r > 1 && s.leader(r) == b && !proposedR[r] {
+				hide := -1
+				if r-1 <= s.ppK {
+					hide = s.ppX[r-1]
+				}
+				rcs := s.observed(func(m msg) bool {
+					return m.typ == qbft.MsgRoundChange && m.round == r && int(m.src) != hide
+				})
+				seen := map[int64]bool{}
+				var just []M
+				var hi msg
+				for _, m := range rcs {
+					if seen[m.src] {
+						continue
+					}
+					seen[m.src] = true
+					if m.pr > hi.pr {
+						hi = m
+					}
+					just = append(just, m)
+				}
+				if len(just)+1 < s.q {
+					continue // not enough ROUND-CHANGEs seen yet
+				}
+				proposedR[r] = true
+				just = append(just, s.forged(qbft.MsgRoundChange, b, r, 0, 0, 0, nil))
+				val := own
+				if hi.pr > 0 {
+					val = hi.pv
+					just = append(just, hi.just...)
+				}
+				pp := s.forged(qbft.MsgPrePrepare, b, r, val, 0, 0, just)
+				for _, to := range honest {
+					s.advSend(to, pp)
+				}
+				verifrt.Probe("adv:ping-pong-proposal")
+			}
+		}
+	}
+}
+
 func (s *sim) adversary(alphabet []int64) {
 	moves := 3 + verifrt.Intn("a", 25)
 	byz := s.byzIDs()
@@ -920,6 +1087,10 @@ func (s *sim) adversary(alphabet []int64) {
 				}
 			}
 		})
+	}
+	if s.ppK > 0 {
+		s.pingPongAdversary(alphabet, byz[0], honest)
+		return
 	}
 	for i := 0; i < moves && s.ctx.Err() == nil; i++ {
 		verifrt.Sleep(time.Duration(verifrt.Intn("a", 9)) * 100 * time.Millisecond)
